@@ -237,7 +237,26 @@ pub fn judge_case(c: &Case) -> Obs {
                     return obs;
                 }
                 if rr.features.stack_op || rr.refused_word && rr.stop == RunStop::Exit(1) {
+                    // the image holds no 0xD word, yet one is executed: the gate is asked when the
+                    // word is reached, whatever the image looked like when it was loaded
                     obs.label("executes-0xD-built-at-run-time");
+                    obs.nontrivial = true;
+                    if rr.executed_reg_trap {
+                        return obs;
+                    }
+                    let rr_off = refvm::run(Vm::load(orig, &img.words, false), input, BUDGET, Some(0xFFFD));
+                    if matches!(rr_off.stop, RunStop::Unspecified(_)) || rr_off.executed_reg_trap {
+                        return obs;
+                    }
+                    let s_off = lacebox::run_session(Load::Source { text: text.clone(), debugger: None }, RunSpec { stack: false, minimal: false, fuel: BUDGET, input: input.clone() });
+                    if let Err(e) = agrees(&rr_off, &s_off, input) {
+                        obs.set_fail("C18:vm-gate-flag-off", format!("without -f stack, reaching an opcode-0xD word that the program built at run time must stop the VM with status 1 and execute nothing: {e}\n{text}"));
+                        return obs;
+                    }
+                    let s_on = lacebox::run_session(Load::Source { text: text.clone(), debugger: None }, RunSpec { stack: true, minimal: false, fuel: BUDGET, input: input.clone() });
+                    if let Err(e) = agrees(&rr, &s_on, input) {
+                        obs.set_fail("C18:flag-on-wrong-behaviour", format!("with -f stack (0xD word built at run time): {e}\n{text}"));
+                    }
                     return obs;
                 }
                 let minimal = rr.executed_reg_trap;
@@ -440,7 +459,7 @@ impl Prop for C18 {
         "C18"
     }
     fn rule(&self) -> &'static str {
-        "Both flag values x (a) ProgGen programs with and without push/pop/call/rets, rendered under varied layouts (any keyword case), (b) arbitrary word images with raw 0xD words that are / are not reached at run time, (c) every one of the four words in 16 letter-case patterns in instruction, label and operand position (enumerated), (d) `step out` in the debugger, (e) the real binary invoked as run / sub-command-less / debug / compile + run of the object file, with the flag absent, spelled three ways, and placed before the file, on a program that uses and one that does not use the extension (enumerated). \
+        "Both flag values x (a) ProgGen programs with and without push/pop/call/rets, rendered under varied layouts (any keyword case), (b) arbitrary word images with raw 0xD words that are / are not reached at run time, and programs that hold no 0xD word but build one at run time and run into it (ProgGen's SynthD), (c) every one of the four words in 16 letter-case patterns in instruction, label and operand position (enumerated), (d) `step out` in the debugger, (e) the real binary invoked as run / sub-command-less / debug / compile + run of the object file, with the flag absent, spelled three ways, and placed before the file, on a program that uses and one that does not use the extension (enumerated). \
          Oracle: flag off: a stack mnemonic is rejected and the diagnostic contains 'stack'; reaching 0xD stops with exit status 1 with the machine exactly as before the word (RefVM). Flag on: the documented encodings (RefAsm) and RefVM behaviour. No stack mnemonic and no executed 0xD: identical image, output, exit, input consumption and full final state under both settings. The words are never accepted as labels. \
          Non-trivial: the program contains a stack mnemonic / the image contains a 0xD word / a text or step-out case. Distinct = hash(case)."
     }
